@@ -8,9 +8,10 @@ META = {
     "assumptions": [
         "posix_memalign = cbmc malloc + ledger + fault injector (ABTU_malloc/calloc/memalign all go through it in this configuration); pthread_barrier_init may fail likewise",
         "xstream_create: the stage functions of other modules (local memory pools, root ULT, root pool, main-scheduler ULT, native thread) are stubs that acquire/release a counted resource or fail; the ladder itself and the rank bookkeeping are the real code",
+        "work-unit creation: caller is an external thread, typed arena with one block per request kind; the key destructor call of ABTI_ktable_free is restricted to thread.c's two destructors (cbmc asserts the pointer is one of them)",
         "ABT_timer_create is excluded (its descriptor cache makes the second call allocation-free)",
     ],
-    "outside": ["ABT_init's cross-stage interactions", "scheduler and pool creation", "failures inside glibc's pthread_*_init other than pthread_barrier_init", "mmap partial failures"],
+    "outside": ["ABT_init's cross-stage interactions", "scheduler and pool creation (ABT_sched_create*, ABT_pool_create*)", "work-unit creation from a ULT (descriptors from the memory pools: their failure path is the mempool_* obligations)", "failures inside glibc's pthread_*_init other than pthread_barrier_init", "mmap partial failures"],
 }
 SPIN = ["ABTD_spinlock_acquire.0", "ABTD_spinlock_acquire.1"]
 NAMES = ["ABT_mutex_create", "ABT_mutex_create_with_attr", "ABT_mutex_attr_create", "ABT_cond_create", "ABT_barrier_create", "ABT_eventual_create", "ABT_future_create", "ABT_rwlock_create", "ABT_key_create",
@@ -25,6 +26,15 @@ def obligations(tier):
         o.append(Obl("create_" + nm[4:], "C18/create.c", "%s: the k-th allocation request fails (k symbolic over every request of the call, arguments symbolic): error code, nothing left allocated, handle NULL or untouched, retry succeeds, everything freeable" % nm,
                      defs=["WHICH=%d" % w] + (["MULTI"] if w in (5, 6, 11) else []), unwind=3, cut_loops=SPIN, object_bits=10, backend="cadical", encodes=[nm, nm.replace("_create", "_free").replace("_with_attr", "")],
                      bounds="every allocation request of one call (1..3)", symbolic="failing request index, size arguments"))
+    KD = [("ABTI_ktable_free.function_pointer_call.1", ["thread_key_destructor_stackable_sched", "thread_key_destructor_migration"])]
+    for nm, defs, d, to in [("thread_create_noattr", ["WHICH=0", "WITH_ATTR=0"], "ABT_thread_create (default attributes) into a built-in or user-defined pool", 200),
+                            ("thread_create_migcb", ["WHICH=0", "WITH_ATTR=1"], "ABT_thread_create with an attribute carrying a migration callback (migration record + key table)", 300),
+                            ("sched_ult_create", ["WHICH=1"], "ABTI_ythread_create_sched (the body of ABT_pool_add_sched) for the caller's scheduler, automatic or not", 400),
+                            ("task_create", ["WHICH=2"], "ABT_task_create into a built-in or user-defined pool", 200)]:
+        o.append(Obl("unit_" + nm, "C18/create_unit.c", d + ": the k-th allocation fails (k symbolic) and/or the user-defined pool refuses the unit / the unit map fails (symbolic): error code, nothing left allocated, no unit left in the pool, nothing pushed, NULL or untouched handle, objects passed in by the caller (the scheduler) neither freed nor modified; success pushes exactly once",
+                     defs=defs, unwind=4, unwindset=["ABTD_spinlock_acquire.0:2", "ABTD_spinlock_acquire.1:2"], object_bits=11, backend="cadical", no_std=["--pointer-overflow-check"], restrict_fp=KD, timeout=to, mem_gb=10,
+                     encodes=["ythread_create", "ABT_thread_create", "ABTI_ythread_create_sched", "ABT_task_create", "ABTI_thread_init_pool", "ABTI_ktable_set_unsafe", "ABTI_ktable_free", "ABTI_mem_free_thread"],
+                     bounds="every allocation request of one call (<=4), 1-slot key table", symbolic="failing request index, pool kind, unit-creation and unit-map failure, automatic flag"))
     C17 = importlib.import_module("props.C17")
     o += [x for x in C17.obligations(tier) if x.name in ("xstream_create_ladder", "main_sched_other_stream")]
     C15 = importlib.import_module("props.C15")
